@@ -23,6 +23,7 @@ from vf.models import c07_pdbspec as S
 ID = "C07"
 FLAVOUR = "san"
 LEVEL = "exploration"
+THOROUGH_MULT = 2.5       # deepens the sampled strata of the thorough tier (measured: about ten minutes on 16 cores)
 RULE = (
     "seeded generator of structure descriptions: 1-50 atoms in residues with unique (chain,res_id,ins_code) and unique "
     "atom names per residue (residues from a synthetic component dictionary or invented), 1-3 models, AtomArray or stack, "
